@@ -8,6 +8,7 @@ Leaf-type descriptors ("specs"):
   ("py", "int"|"str")      a plain Python type
   ("tup", [spec, ...])     tuple[spec, ...]  (fixed length)
   ("union", [spec, ...])   typing.Union[...], members tried in declaration order
+  ("union604", [spec, ...]) the same written `X | Y`
   ("any",)                 typing.Any
   ("tree", spec)           structure-less PyTree[spec] nested in the leaf type
 """
@@ -66,6 +67,11 @@ def to_ann(spec, ARR):
         return tuple[tuple(to_ann(s, ARR) for s in spec[1])]
     if k == "union":
         return typing.Union[tuple(to_ann(s, ARR) for s in spec[1])]
+    if k == "union604":
+        # PEP 604 spelling `X | Y` (types.UnionType)
+        import functools
+        import operator
+        return functools.reduce(operator.or_, [to_ann(s, ARR) for s in spec[1]])
     if k == "any":
         return typing.Any
     if k == "tree":
@@ -103,7 +109,7 @@ def flat_match(spec, x, ARR):
     if k == "tup":
         return isinstance(x, tuple) and len(x) == len(spec[1]) and all(
             flat_match(s, c, ARR) for s, c in zip(spec[1], x))
-    if k == "union":
+    if k in ("union", "union604"):
         return any(flat_match(s, x, ARR) for s in spec[1])
     if k == "any":
         return False  # PyTree[Any]: nothing is a leaf during discovery, everything matches after
@@ -172,7 +178,7 @@ def full_match(V, spec, x, B, ARR, args=None, tp=None):
                 # enclosing PyTree / union rollback
                 return r, B
         return "ACC", cur
-    if k == "union":
+    if k in ("union", "union604"):
         for s in spec[1]:
             r, B2 = full_match(V, s, x, B, ARR, args, tp)
             if r == "ACC":
